@@ -70,9 +70,13 @@ def run(ck):
             want = [exp[f].k] if exp[f].faulty else []
             got = view.get(f)
             # (a text with the cut-short declaration has syntax errors and nothing else besides its Und fault)
-            syn_ok = got is not None and (bool(got[2]) == bool(getattr(exp[f], "syn", False))) and all(m.startswith("expected") for m in got[2])
+            # ... and one diagnostic per include statement whose file is neither open nor on disk, naming that file
+            missing = [sessions.FILES[j] for j in exp[f].incs if j not in ws]
+            inc_msgs = [m for m in (got[2] if got else []) if any(name in m for name in missing)]
+            rest = [m for m in (got[2] if got else []) if m not in inc_msgs]
+            syn_ok = got is not None and (bool(rest) == bool(getattr(exp[f], "syn", False))) and all(m.startswith("expected") for m in rest) and len(inc_msgs) == len(missing)
             if got is None or got[0] != want or not syn_ok:
-                bad = "published diagnostics of %s are %s, final state has %s%s" % (sessions.FILES[f], got, want, " plus syntax errors" if getattr(exp[f], "syn", False) else "")
+                bad = "published diagnostics of %s are %s, final state has %s%s" % (sessions.FILES[f], got, want, (" plus syntax errors" if getattr(exp[f], "syn", False) else "") + (" plus unresolved includes %s" % missing if missing else ""))
                 break
         if bad is None:
             for f, got in view.items():
